@@ -7,7 +7,7 @@ from xv.props.common import new_case, build_root, flush_contracts
 
 ID = "C06"
 LEVEL = "exploration"
-N_QUICK, N_THOROUGH = 60000, 2000000
+N_QUICK, N_THOROUGH = 100000, 2000000
 T_QUICK, T_THOROUGH = 70, 1500
 FLOORS = {"objects": 4000, "nested_views": 10000, "struct_attr_checks": 3000, "array_attr_checks": 5000,
           "write_through_checks": 5000, "growths": 500, "rereads_after_growth": 1000,
